@@ -305,13 +305,126 @@ fn frame_of_json(c: &J) -> (RFrame, u64) {
     )
 }
 
+/// The polling decoder (`WebsocketStream::recv_nonblocking`, used by the asynchronous app) over a real socket: one
+/// unfragmented masked data frame is written in two pieces with a pause in between, cut at `cut`; polling must
+/// eventually deliver exactly the payload.
+pub fn check_nonblocking(payload_len: usize, binary: bool, key: [u8; 4], cut: usize, pause_ms: u64) -> Vec<Fail> {
+    use std::io::Write;
+    let payload: Vec<u8> = (0..payload_len).map(|i| (i * 7 + 3) as u8).collect();
+    let wire = ws::encode(&RFrame { fin: true, rsv: [false; 3], opcode: if binary { 2 } else { 1 }, mask: Some(key), payload: if binary { payload.clone() } else { payload.iter().map(|b| b'a' + b % 26).collect() } });
+    let payload: Vec<u8> = if binary { payload } else { payload.iter().map(|b| b'a' + b % 26).collect() };
+    let cut = cut.min(wire.len());
+    let l = match std::net::TcpListener::bind("127.0.0.1:0") {
+        Ok(l) => l,
+        Err(e) => return vec![Fail::new("harness-bind", e.to_string())],
+    };
+    let addr = l.local_addr().unwrap();
+    let w2 = wire.clone();
+    let writer = std::thread::spawn(move || {
+        if let Ok(mut c) = std::net::TcpStream::connect(addr) {
+            let _ = c.set_nodelay(true);
+            let _ = c.write_all(&w2[..cut]);
+            std::thread::sleep(std::time::Duration::from_millis(pause_ms));
+            let _ = c.write_all(&w2[cut..]);
+            // keep the connection open until the reader has finished
+            let mut sink = [0u8; 64];
+            use std::io::Read;
+            let _ = c.set_read_timeout(Some(std::time::Duration::from_secs(10)));
+            let _ = c.read(&mut sink);
+        }
+    });
+    let (sock, _) = match l.accept() {
+        Ok(x) => x,
+        Err(e) => return vec![Fail::new("harness-accept", e.to_string())],
+    };
+    let mut stream = humphrey_ws::WebsocketStream::new(humphrey::stream::Stream::Tcp(sock));
+    let t0 = std::time::Instant::now();
+    let mut fails = Vec::new();
+    let got = catch(|| loop {
+        match stream.recv_nonblocking() {
+            humphrey_ws::restion::Restion::Ok(m) => break Ok(m.bytes().to_vec()),
+            humphrey_ws::restion::Restion::Err(e) => break Err(format!("{:?}", e)),
+            humphrey_ws::restion::Restion::None => {
+                if t0.elapsed() > std::time::Duration::from_secs(5) {
+                    break Err("nothing delivered within 5 s".to_string());
+                }
+                std::thread::sleep(std::time::Duration::from_micros(500));
+            }
+        }
+    });
+    match got {
+        Err(p) => fails.push(fail!("nonblocking-panic", "recv_nonblocking panicked: {}", p)),
+        Ok(Err(e)) => fails.push(fail!(
+            "nonblocking-decode-split",
+            "a {}-byte masked frame ({} payload bytes) written as {} + {} bytes {} ms apart was not delivered by the polling decoder: {}",
+            wire.len(), payload.len(), cut, wire.len() - cut, pause_ms, e
+        )),
+        Ok(Ok(b)) => {
+            if b != payload {
+                fails.push(fail!("nonblocking-decode-payload", "polling decoder delivered {} bytes that differ from the {} sent (frame cut at {})", b.len(), payload.len(), cut));
+            }
+        }
+    }
+    drop(stream);
+    let _ = writer.join();
+    fails
+}
+
+fn nonblocking(ctx: &Ctx) {
+    // (payload length, cut offsets): every cut inside the header / extended length / key and a few inside the payload
+    let mut cases: Vec<(usize, bool, [u8; 4], usize)> = Vec::new();
+    let keys = [[1u8, 2, 3, 4], [0xff, 0, 0x80, 0x7f]];
+    for (li, len) in [0usize, 1, 5, 125, 126, 300, 65536, 70000].iter().enumerate() {
+        let head = 2 + if *len > 65535 { 8 } else if *len > 125 { 2 } else { 0 } + 4;
+        let total = head + len;
+        let mut cuts: Vec<usize> = (1..=head.min(total)).collect();
+        for c in [head + 1, head + 3, head + len / 2, total.saturating_sub(1), 4097, 8193] {
+            if c > head && c < total {
+                cuts.push(c);
+            }
+        }
+        cuts.sort();
+        cuts.dedup();
+        for (ci, c) in cuts.iter().enumerate() {
+            cases.push((*len, (li + ci) % 2 == 0, keys[(li + ci) % 2], *c));
+        }
+    }
+    let step = ctx.tier.pick(2usize, 1usize);
+    let cases: Vec<_> = cases.into_iter().enumerate().filter(|(i, _)| i % step == 0).map(|(_, c)| c).collect();
+    let next = std::sync::atomic::AtomicUsize::new(0);
+    let found: std::sync::Mutex<Vec<(Fail, J)>> = std::sync::Mutex::new(Vec::new());
+    crate::engine::shards(16, |_| loop {
+        let i = next.fetch_add(1, std::sync::atomic::Ordering::SeqCst);
+        if i >= cases.len() {
+            break;
+        }
+        let (len, binary, key, cut) = cases[i];
+        let head = 2 + if len > 65535 { 8 } else if len > 125 { 2 } else { 0 } + 4;
+        ctx.case(hash_of(&("nb", len, binary, key, cut)), true, &[if cut < 2 { "nonblocking:cut-in-first-two-bytes" } else if cut <= head { "nonblocking:cut-in-header" } else { "nonblocking:cut-in-payload" }]);
+        for f in check_nonblocking(len, binary, key, cut, 25) {
+            if f.sig.starts_with("harness-") {
+                ctx.inconclusive(&f.detail);
+            } else {
+                found.lock().unwrap().push((f, json!({"payload_len": len, "binary": binary, "key": hex(&key), "cut": cut, "pause_ms": 25})));
+            }
+        }
+    });
+    ctx.sample("nonblocking", || json!({"frames": "one masked data frame written in two pieces 25 ms apart, polled with recv_nonblocking", "cases": cases.len()}));
+    for (f, c) in found.into_inner().unwrap() {
+        if !ctx.tolerate(&f) {
+            ctx.violation(f, "nonblocking", c);
+        }
+    }
+}
+
 pub fn run(ctx: &Ctx) {
-    ctx.rule("frames over FIN x RSV1-3 x 6 opcodes x mask {off, any key} x payload lengths {0,1,124..128,65534..65537, random}: encode must equal the reference RFC 6455 §5.2 layout (shortest length form) and decode back (payload unmasked) under whole / byte-wise / every split (<=140 bytes) or sampled read plans; all 65 536 two-byte headers with truncated and complete remainders against the reference decoder (ReadError on truncation, InvalidOpcode on reserved opcodes); huge claimed lengths in an isolated worker. Non-trivial: boundary length class, masked, RSV set, or split inside header/extended length/key; distinct by wire bytes");
+    ctx.rule("frames over FIN x RSV1-3 x 6 opcodes x mask {off, any key} x payload lengths {0,1,124..128,65534..65537, random}: encode must equal the reference RFC 6455 §5.2 layout (shortest length form) and decode back (payload unmasked) under whole / byte-wise / every split (<=140 bytes) or sampled read plans; all 65 536 two-byte headers with truncated and complete remainders against the reference decoder (ReadError on truncation, InvalidOpcode on reserved opcodes); huge claimed lengths in an isolated worker; the polling decoder (recv_nonblocking over a real socket) with one masked frame written in two pieces, cut at every header offset and a few payload offsets. Non-trivial: boundary length class, masked, RSV set, or split inside header/extended length/key; distinct by wire bytes");
     ctx.assume("reference codec in common/ws.rs; Frame.payload is the payload as it appears on the wire (the encoder does not apply the mask), decode returns it unmasked");
     headers_exhaustive(ctx);
     boundary_frames(ctx);
     messages(ctx);
     huge_claims(ctx);
+    nonblocking(ctx);
     let cases = ctx.tier.pick(4_000u32, 100_000u32);
     let max_len = ctx.tier.pick(70usize << 10, 1usize << 20);
     crate::engine::shards(8, |i| {
@@ -347,6 +460,11 @@ pub fn run(ctx: &Ctx) {
 
 pub fn replay(_ctx: &Ctx, kind: &str, case: &J) -> Vec<Fail> {
     match kind {
+        "nonblocking" => {
+            let k = unhex(case["key"].as_str().unwrap_or("01020304"));
+            let key = [k.first().copied().unwrap_or(1), k.get(1).copied().unwrap_or(2), k.get(2).copied().unwrap_or(3), k.get(3).copied().unwrap_or(4)];
+            check_nonblocking(case["payload_len"].as_u64().unwrap_or(0) as usize, case["binary"].as_bool().unwrap_or(true), key, case["cut"].as_u64().unwrap_or(1) as usize, case["pause_ms"].as_u64().unwrap_or(25))
+        }
         "frame" => {
             let (f, s) = frame_of_json(case);
             check_frame(&f, s, None)
